@@ -137,6 +137,7 @@ func (w *c19World) login(revokeAnswer func() harness.AuthAnswer) (proxyCookie, a
 }
 
 func c19Run(c *fw.Ctx) {
+	c.Retries = 2 // socket-based harness: tolerate a transient glitch while replaying a prefix
 	vtime.SetManual(harness.T0)
 	defer vtime.SetReal()
 	w := newC19World()
